@@ -280,4 +280,271 @@ theorem tryEvalConst_embed_total (e : SExpr) (hwf : e.WF) (hf : AllFoldable e) :
   · exact Or.inr (by simp [tryEvalConst, h])
   · exact Or.inr (by simp [tryEvalConst, h])
 
+/-! ### run-time semantics of model trees with parameters; soundness of `on_block` -/
+
+def tyOfTyp? (t : Typ) : Option Ty := Ty.all.find? (fun ty => tyOf ty == t)
+def opOfSym? (s : String) : Option Op := Op.all.find? (fun o => o.symbol == s)
+
+theorem tyOfTyp?_some (t : Typ) (ty : Ty) (h : tyOfTyp? t = some ty) : tyOf ty = t := by
+  have := List.find?_some h; simpa using this
+
+theorem tyOfTyp?_tyOf (ty : Ty) : tyOfTyp? (tyOf ty) = some ty := by cases ty <;> decide
+
+theorem opOfSym?_some (s : String) (o : Op) (h : opOfSym? s = some o) : o.symbol = s := by
+  have := List.find?_some h; simpa using this
+
+theorem opOfSym?_symbol (o : Op) : opOfSym? o.symbol = some o := by cases o <;> decide
+
+/-- run-time value of a model tree under `Spec.IRArith`, parameters (`other`) taken from `env`;
+    `none` if the tree is ill-typed, a constant/parameter is not a value of its type, or an operation
+    is undefined -/
+def evalE (env : Nat → Int) : Expr → Option Int
+  | .const ty v => (tyOfTyp? ty).bind fun t => if InRange t v then some v else none
+  | .other ty id => (tyOfTyp? ty).bind fun t => if InRange t (env id) then some (env id) else none
+  | .cast ty src => (tyOfTyp? ty).bind fun t => (evalE env src).map (Spec.IRArith.cast t)
+  | .binop ty op a b =>
+    (tyOfTyp? ty).bind fun t => (opOfSym? op).bind fun o =>
+      if a.ty = ty ∧ b.ty = ty then
+        (evalE env a).bind fun va => (evalE env b).bind fun vb => binop t o va vb
+      else none
+
+/-- defined values are values of the tree's type -/
+theorem evalE_inRange (env : Nat → Int) (e : Expr) (v : Int) (h : evalE env e = some v) :
+    ∃ t, tyOfTyp? e.ty = some t ∧ InRange t v := by
+  induction e generalizing v with
+  | const ty c =>
+    simp only [evalE, Option.bind_eq_some_iff] at h
+    obtain ⟨t, ht, h⟩ := h
+    split at h <;> simp at h
+    subst h; exact ⟨t, ht, by assumption⟩
+  | other ty id =>
+    simp only [evalE, Option.bind_eq_some_iff] at h
+    obtain ⟨t, ht, h⟩ := h
+    split at h <;> simp at h
+    subst h; exact ⟨t, ht, by assumption⟩
+  | cast ty src _ =>
+    simp only [evalE, Option.bind_eq_some_iff, Option.map_eq_some_iff] at h
+    obtain ⟨t, ht, w, _, rfl⟩ := h
+    exact ⟨t, ht, cast_inRange t w⟩
+  | binop ty op a b iha ihb =>
+    simp only [evalE, Option.bind_eq_some_iff] at h
+    obtain ⟨t, ht, o, _, h⟩ := h
+    split at h
+    · simp only [Option.bind_eq_some_iff] at h
+      obtain ⟨va, hva, vb, hvb, h⟩ := h
+      rename_i htt
+      obtain ⟨ta, hta, ra⟩ := iha va hva
+      obtain ⟨tb, htb, rb⟩ := ihb vb hvb
+      rw [htt.1, ht] at hta; rw [htt.2, ht] at htb
+      simp at hta htb; subst hta htb
+      exact ⟨t, ht, binop_inRange t o va vb v ra rb h⟩
+    · simp at h
+
+/-- **`eval_const` is sound on model trees**: a tree that `is_const` accepts and that has run-time
+    value `v` evaluates to the constant `v` of its type. -/
+theorem evalConst_sound (env : Nat → Int) (e : Expr) (v : Int) (hc : isConst e = true)
+    (h : evalE env e = some v) : evalConst e = .ok (e.ty, v) := by
+  induction e generalizing v with
+  | const ty c =>
+    simp only [evalE, Option.bind_eq_some_iff] at h
+    obtain ⟨t, _, h⟩ := h
+    split at h <;> simp at h
+    subst h; rfl
+  | other ty id => simp [isConst] at hc
+  | cast ty src ih =>
+    simp only [isConst] at hc
+    simp only [evalE, Option.bind_eq_some_iff, Option.map_eq_some_iff] at h
+    obtain ⟨t, ht, w, hw, rfl⟩ := h
+    have := tyOfTyp?_some _ _ ht
+    subst this
+    simp [evalConst, ih w hc hw, Model.ConstFold.cast, correct_eq_wrap, Spec.IRArith.cast, Expr.ty]
+  | binop ty op a b iha ihb =>
+    simp only [isConst, Bool.and_eq_true] at hc
+    obtain ⟨⟨hl, hca⟩, hcb⟩ := hc
+    simp only [evalE, Option.bind_eq_some_iff] at h
+    obtain ⟨t, ht, o, ho, h⟩ := h
+    split at h
+    · rename_i htt
+      simp only [Option.bind_eq_some_iff] at h
+      obtain ⟨va, hva, vb, hvb, h⟩ := h
+      have e1 := tyOfTyp?_some _ _ ht
+      have e2 := opOfSym?_some _ _ ho
+      subst e1 e2
+      obtain ⟨f, hf⟩ := Option.isSome_iff_exists.mp hl
+      obtain ⟨ta, hta, ra⟩ := evalE_inRange env a va hva
+      obtain ⟨tb, htb, rb⟩ := evalE_inRange env b vb hvb
+      rw [htt.1, tyOfTyp?_tyOf] at hta; rw [htt.2, tyOfTyp?_tyOf] at htb
+      simp at hta htb; subst hta htb
+      have hv := enhance_agrees t o f va vb v hf ra rb h
+      have ea := iha va hca hva
+      have eb := ihb vb hcb hvb
+      rw [htt.1] at ea; rw [htt.2] at eb
+      simp [evalConst, ea, eb, hf, hv]
+      rfl
+    · simp at h
+
+theorem onInstr_replace_inv (ins : Expr) (t : Typ) (r : Int) (h : onInstr ins = .ok (.replace t r)) :
+    isConst ins = true ∧ evalConst ins = .ok (t, r) := by
+  simp only [onInstr] at h
+  split at h
+  · simp at h
+  · split at h
+    · rename_i hc
+      split at h
+      · simp at h
+      · simp at h
+      · rename_i t' v' heq
+        simp at h; obtain ⟨h1, h2⟩ := h; subst h1 h2
+        exact ⟨hc, evalConst_of_tryEvalConst _ _ heq⟩
+    · repeat' split at h
+      all_goals try (simp at h; done)
+
+theorem onInstr_rechain_inv (ins y' : Expr) (t : Typ) (r : Int) (h : onInstr ins = .ok (.rechain y' t r)) :
+    ∃ op t1 c1 c2 va vb, ins = .binop t op (.binop t1 op y' c1) c2 ∧ (op = "+" ∨ op = "-") ∧
+      isConst c1 = true ∧ isConst c2 = true ∧ evalConst c1 = .ok (t, va) ∧ evalConst c2 = .ok (t, vb) ∧
+      t = y'.ty ∧ r = chainConst t va vb := by
+  simp only [onInstr] at h
+  split at h
+  · simp at h
+  · split at h
+    · repeat' split at h
+      all_goals try (simp at h; done)
+    · repeat' split at h
+      all_goals try (simp at h; done)
+      rename_i _ _ ty op t1 op1 y c1 c2 _ _ hcond _ _ _ _ ta va tb vb h1 h2 hab hta hty
+      simp at h hab hta hty
+      obtain ⟨rfl, rfl, rfl⟩ := h
+      subst hab
+      subst hta
+      have e1 := evalConst_of_tryEvalConst _ _ h1
+      have e2 := evalConst_of_tryEvalConst _ _ h2
+      simp only [Bool.or_eq_true, Bool.and_eq_true, beq_iff_eq] at hcond
+      rcases hcond with ⟨⟨⟨rfl, k1⟩, rfl⟩, k2⟩ | ⟨⟨⟨rfl, k1⟩, rfl⟩, k2⟩
+      · exact ⟨"+", t1, c1, c2, va, vb, rfl, Or.inl rfl, k1, k2, e1, e2, hty, rfl⟩
+      · exact ⟨"-", t1, c1, c2, va, vb, rfl, Or.inr rfl, k1, k2, e1, e2, hty, rfl⟩
+
+theorem ty_binop (ty : Typ) (op : String) (a b : Expr) : (Expr.binop ty op a b).ty = ty := rfl
+theorem ty_const (ty : Typ) (v : Int) : (Expr.const ty v).ty = ty := rfl
+theorem ty_cast (ty : Typ) (s : Expr) : (Expr.cast ty s).ty = ty := rfl
+
+/-- **One step of `on_block` preserves the run-time value**, for every shape the model's matcher
+    accepts and every value of the parameters: if the instruction (with its operand tree) has
+    run-time value `v`, so has the instruction that `on_block` leaves behind. -/
+theorem onInstr_sound (env : Nat → Int) (ins : Expr) (act : Action) (v : Int)
+    (ho : onInstr ins = .ok act) (h : evalE env ins = some v) :
+    evalE env (applyAction ins act) = some v := by
+  cases act with
+  | skip => simpa [applyAction] using h
+  | keep => simpa [applyAction] using h
+  | replace t r =>
+    obtain ⟨hc, he⟩ := onInstr_replace_inv ins t r ho
+    have hs := evalConst_sound env ins v hc h
+    rw [he] at hs
+    simp at hs; obtain ⟨rfl, rfl⟩ := hs
+    obtain ⟨t', ht', hr⟩ := evalE_inRange env ins r h
+    simp [applyAction, evalE, ht', hr]
+  | rechain y t r =>
+    obtain ⟨op, t1, c1, c2, va, vb, rfl, hop, k1, k2, e1, e2, hty, rfl⟩ := onInstr_rechain_inv ins y t r ho
+    simp only [evalE, Option.bind_eq_some_iff] at h
+    obtain ⟨tt, htt, o, ho', h⟩ := h
+    split at h
+    · rename_i hty2
+      simp only [Option.bind_eq_some_iff, ty_binop] at h hty2
+      obtain ⟨w, hw, v2, hv2, h⟩ := h
+      obtain ⟨rfl, hc2t⟩ := hty2
+      -- inner instruction
+      obtain ⟨tt', htt', o', ho'', hw⟩ := hw
+      rw [htt] at htt'; rw [ho'] at ho''
+      simp at htt' ho''; subst htt' ho''
+      split at hw
+      · rename_i hty1
+        simp only [Option.bind_eq_some_iff] at hw
+        obtain ⟨yv, hyv, v1, hv1, hw⟩ := hw
+        have s1 := evalConst_sound env c1 v1 k1 hv1
+        have s2 := evalConst_sound env c2 v2 k2 hv2
+        rw [e1] at s1; rw [e2] at s2
+        simp at s1 s2
+        obtain ⟨_, rfl⟩ := s1; obtain ⟨_, rfl⟩ := s2
+        have ett := tyOfTyp?_some _ _ htt
+        subst ett
+        have hr : InRange tt (chainConst (tyOf tt) va vb) := by
+          rw [chainConst, Model.ConstFold.cast, correct_eq_wrap]; exact wrap_inRange tt _
+        simp only [applyAction, evalE, htt, ho', Option.bind_some, ty_const, ← hty, and_self, if_true, hyv, hr]
+        rw [chainConst, Model.ConstFold.cast, correct_eq_wrap]
+        have eo := opOfSym?_some _ _ ho'
+        rcases hop with rfl | rfl
+        · have : o = .add := by cases o <;> simp [Op.symbol] at eo <;> rfl
+          subst this
+          simp only [binop, Option.some.injEq] at hw h ⊢
+          rw [← h, ← hw, wrap_add_wrap_left, wrap_add_wrap_right, Int.add_assoc]
+        · have : o = .sub := by cases o <;> simp [Op.symbol] at eo <;> rfl
+          subst this
+          simp only [binop, Option.some.injEq] at hw h ⊢
+          rw [← h, ← hw, wrap_sub_wrap_left, wrap_sub_wrap_right]; congr 1; omega
+      · simp at hw
+    · simp at h
+
+theorem applyAction_ty (env : Nat → Int) (ins : Expr) (act : Action) (v : Int)
+    (ho : onInstr ins = .ok act) (h : evalE env ins = some v) : (applyAction ins act).ty = ins.ty := by
+  cases act with
+  | skip => rfl
+  | keep => rfl
+  | replace t r =>
+    obtain ⟨hc, he⟩ := onInstr_replace_inv ins t r ho
+    have hs := evalConst_sound env ins v hc h
+    rw [he] at hs; simp at hs
+    simp [applyAction, ty_const, hs.1]
+  | rechain y t r =>
+    obtain ⟨op, t1, c1, c2, va, vb, rfl, _⟩ := onInstr_rechain_inv ins y t r ho
+    rfl
+
+/-- **The pass preserves the run-time value of every function (tree)**: whatever `on_block` does to
+    the instructions below the returned value — folds, chain rewrites, nested or repeated — if the
+    function returned `v` for given parameter values before the pass, it returns `v` after it. -/
+theorem passTree_sound (env : Nat → Int) (e e' : Expr) (v : Int)
+    (hp : passTree e = .ok e') (h : evalE env e = some v) : evalE env e' = some v ∧ e'.ty = e.ty := by
+  induction e generalizing e' v with
+  | const ty c => simp [passTree] at hp; subst hp; exact ⟨h, rfl⟩
+  | other ty id => simp [passTree] at hp; subst hp; exact ⟨h, rfl⟩
+  | cast ty src ih =>
+    simp only [passTree] at hp
+    split at hp
+    · simp at hp
+    · rename_i src' hs
+      split at hp
+      · simp at hp
+      · rename_i act ha
+        simp at hp; subst hp
+        simp only [evalE, Option.bind_eq_some_iff, Option.map_eq_some_iff] at h
+        obtain ⟨t, ht, w, hw, rfl⟩ := h
+        obtain ⟨i1, _⟩ := ih src' w hs hw
+        have hv : evalE env (.cast ty src') = some (Spec.IRArith.cast t w) := by
+          simp [evalE, ht, i1]
+        exact ⟨onInstr_sound env _ act _ ha hv, applyAction_ty env _ act _ ha hv⟩
+  | binop ty op a b iha ihb =>
+    simp only [passTree] at hp
+    split at hp
+    · simp at hp
+    · rename_i a' hsa
+      split at hp
+      · simp at hp
+      · rename_i b' hsb
+        split at hp
+        · simp at hp
+        · rename_i act hact
+          simp at hp; subst hp
+          have h0 := h
+          simp only [evalE, Option.bind_eq_some_iff] at h
+          obtain ⟨t, ht, o, ho, h⟩ := h
+          split at h
+          · rename_i htt
+            simp only [Option.bind_eq_some_iff] at h
+            obtain ⟨va, hva, vb, hvb, h⟩ := h
+            obtain ⟨a1, a2⟩ := iha a' va hsa hva
+            obtain ⟨b1, b2⟩ := ihb b' vb hsb hvb
+            have hv : evalE env (.binop ty op a' b') = some v := by
+              simp [evalE, ht, ho, a2, b2, htt.1, htt.2, a1, b1, h]
+            exact ⟨onInstr_sound env _ act _ hact hv, applyAction_ty env _ act _ hact hv⟩
+          · simp at h
+
 end Proofs.ConstFold
